@@ -1,11 +1,13 @@
 import PEval.Driver.Util
 import PEval.Model.Heading
+import PEval.Model.HeadingQuat
 /-! Driver handler for C09 (heading weight of APH, yaw error).
 
 `{"op":"pair","te":τe,"tg":τg|null,"t0":τ0}` (half-turns, rationals) →
 weight / error of the pair in the ego frame (`w`, `err`), with the roles swapped (`wS`, `errS`), in the
 map frame obtained with ego yaw `τ0` (`wM`, `errM`, swapped `wMS`, `errMS`), the map yaws, the
-circular distance `d` and the two headings. -/
+circular distance `d` and the two headings.
+`{"op":"yawdir","q":[w,x,y,z,…]}` → `yawDir` / `radiansDir` of every quaternion and of its negative. -/
 open Lean
 
 namespace PEval.Driver.C09
@@ -49,6 +51,18 @@ def handle : Json → Except String Json := fun j => do
     let ne ← getBool j "ne"
     let ng ← getBool j "ng"
     pure (Json.mkObj [("w", jRat (aphWeightPreFix te ne tg ng))])
+  | "yawdir" =>
+    -- quaternion level: the two arguments of arctan2 in yaw_pitch_roll[0], for q and for −q; `q` is a flat list w,x,y,z,w,x,y,z,…
+    let qs ← getRatList j "q"
+    let rec quats : List Rat → List PEval.Transform.Quat
+      | w :: x :: y :: z :: rest => ⟨w, x, y, z⟩ :: quats rest
+      | _ => []
+    let row := fun (q : PEval.Transform.Quat) => Json.mkObj [
+      ("c", jRat (yawDir q).c), ("s", jRat (yawDir q).s),
+      ("cn", jRat (yawDir (-q)).c), ("sn", jRat (yawDir (-q)).s),
+      ("rc", jRat (radiansDir q).c), ("rs", jRat (radiansDir q).s),
+      ("rcn", jRat (radiansDir (-q)).c), ("rsn", jRat (radiansDir (-q)).s)]
+    pure (Json.mkObj [("dirs", jList row (quats qs))])
   | o => throw s!"unknown op {o}"
 
 end PEval.Driver.C09
